@@ -139,6 +139,11 @@ func SideConditions(as []*smt.Term) []*smt.Term {
 		if x.Op != "uf" {
 			continue
 		}
+		if strings.HasPrefix(x.Name, "match.") && strings.Contains(x.Name, "barere") {
+			// harness convention: the k-th bare pattern implies the k-th element
+			// pattern (AllowNoAttrs().OnElementsMatching registers both)
+			add(smt.Implies(x, smt.UF(strings.Replace(x.Name, "barere", "elre", 1), smt.Bool, x.Args[0])))
+		}
 		switch x.Name {
 		case "lower":
 			y := x.Args[0]
